@@ -1322,7 +1322,40 @@ impl<'a> Planter<'a> {
                             // visit nested closures inside the body first (they get later ordinals)
                             visit_mut::visit_expr_mut(self, &mut c.body);
                             let body_txt = norm(&c.body.to_token_stream().to_string());
-                            let like = self.fc.closure_like.iter().find(|(_, pre)| body_txt.starts_with(pre.as_str())).map(|(o, _)| *o);
+                            let mut like = self.fc.closure_like.iter().find(|(_, pre)| body_txt.starts_with(pre.as_str())).map(|(o, _)| *o);
+                            if like.is_none() && c.inputs.len() == 1 {
+                                // the contracts name a single parameter `vp_x` (N10 does): a closure written by hand with another
+                                // parameter name matches after renaming that parameter in its body
+                                let pid = match c.inputs.first().unwrap() {
+                                    Pat::Ident(pi) => Some(pi.ident.clone()),
+                                    Pat::Type(pt) => match &*pt.pat { Pat::Ident(pi) => Some(pi.ident.clone()), _ => None },
+                                    _ => None,
+                                };
+                                if let Some(pid) = pid {
+                                    fn ren(ts: TokenStream, from: &Ident, to: &Ident) -> TokenStream {
+                                        ts.into_iter()
+                                            .map(|tt| match tt {
+                                                proc_macro2::TokenTree::Ident(ref id) if id == from => proc_macro2::TokenTree::Ident(to.clone()),
+                                                proc_macro2::TokenTree::Group(g) => {
+                                                    let mut ng = proc_macro2::Group::new(g.delimiter(), ren(g.stream(), from, to));
+                                                    ng.set_span(g.span());
+                                                    proc_macro2::TokenTree::Group(ng)
+                                                }
+                                                other => other,
+                                            })
+                                            .collect()
+                                    }
+                                    let to = format_ident!("vp_x");
+                                    let renamed = ren(c.body.to_token_stream(), &pid, &to);
+                                    let txt2 = norm(&renamed.to_string());
+                                    if let Some(o) = self.fc.closure_like.iter().find(|(_, pre)| txt2.starts_with(pre.as_str())).map(|(o, _)| *o) {
+                                        if let Ok(nb) = syn::parse2::<Expr>(renamed) {
+                                            *c.body = nb;
+                                            like = Some(o);
+                                        }
+                                    }
+                                }
+                            }
                             let use_ord = match like {
                                 Some(o) => Some(o),
                                 None => if self.fc.closures.contains_key(&ord) && ord < 1000 { Some(ord) } else { None },
